@@ -244,6 +244,14 @@ pub fn run(opts: &Opts) -> i32 {
             ("codata-permuted-control", "begin\n    let P = codata | .name : Ret String | .age : Ret Int64 end that\n    let R = codata | .age : Ret Int64 | .name : Ret String end that\n    let bob : Thk P = { comatch | .name => ret \"bob\" | .age => ret (3 : Int64) end } that\n    let show = { fn (r : Thk R) => do s <- ! r .name; do t <- ! (string/append) s \" years\"; do a <- ! r .age; ! (process/exit) a } that\n    ! show bob\n  end", true),
             ("data-same-names-other-types", "begin\n    let P = data | +N : String | +A : Int64 end that\n    let R = data | +A : String | +N : Int64 end that\n    let v : P = +A((3 : Int64)) that\n    let show = { fn (r : R) => match r | +A(s) => do t <- ! (string/append) s \" years\"; ! (process/exit) (0 : Int64) | +N(n) => ! (process/exit) n end } that\n    ! show v\n  end", false),
             ("data-permuted-control", "begin\n    let P = data | +N : String | +A : Int64 end that\n    let R = data | +A : Int64 | +N : String end that\n    let v : P = +A((3 : Int64)) that\n    let show = { fn (r : R) => match r | +A(n) => ! (process/exit) n | +N(s) => ! (process/exit) (0 : Int64) end } that\n    ! show v\n  end", true),
+            // labelled products are equal only label by label, in order
+            ("labels-exchanged", "begin\n    let T1 = (a :: Int64) * (b :: Int64) that\n    let T2 = (b :: Int64) * (a :: Int64) that\n    let v : T1 = (a = (1 : Int64), b = (2 : Int64)) that\n    let show = { fn (r : T2) => ! (process/exit) r/b } that\n    ! show v\n  end", false),
+            ("label-renamed", "begin\n    let T1 = (a :: Int64) * (b :: Int64) that\n    let T2 = (a :: Int64) * (c :: Int64) that\n    let v : T1 = (a = (1 : Int64), b = (2 : Int64)) that\n    let show = { fn (r : T2) => ! (process/exit) r/c } that\n    ! show v\n  end", false),
+            ("label-missing", "begin\n    let T1 = (a :: Int64) * (b :: Int64) that\n    let T2 = (a :: Int64) * Int64 that\n    let v : T1 = (a = (1 : Int64), b = (2 : Int64)) that\n    let show = { fn (r : T2) => ! (process/exit) r/a } that\n    ! show v\n  end", false),
+            ("label-payload-differs", "begin\n    let T1 = (a :: Int64) * (b :: Int64) that\n    let T2 = (a :: Int64) * (b :: String) that\n    let v : T1 = (a = (1 : Int64), b = (2 : Int64)) that\n    let show = { fn (r : T2) => ! (process/exit) r/a } that\n    ! show v\n  end", false),
+            ("labels-control", "begin\n    let T1 = (a :: Int64) * (b :: Int64) that\n    let T2 = (a :: Int64) * (b :: Int64) that\n    let v : T1 = (a = (1 : Int64), b = (2 : Int64)) that\n    let show = { fn (r : T2) => ! (process/exit) r/a } that\n    ! show v\n  end", true),
+            ("named-value-at-another-label", "begin\n    let T1 = (a :: Int64) * (b :: Int64) that\n    let v : T1 = (a = (1 : Int64), c = (2 : Int64)) that\n    ! (process/exit) v/a\n  end", false),
+            ("named-values-exchanged", "begin\n    let T1 = (a :: Int64) * (b :: String) that\n    let v : T1 = (b = \"s\", a = (1 : Int64)) that\n    ! (process/exit) v/a\n  end", false),
             ("constructor-argument-control", "begin\n    let Zb = data | +Box : Int64 end that\n    let v = (+Box((3 : Int64)) : Zb) in\n    ! (process/exit) (0 : Int64)\n  end", true),
         ] {
             probes.push((name.to_string(), format!("{pre}begin\n  {body}\nend\n"), ok));
